@@ -152,12 +152,52 @@ add(Contract(
     modifies=['slot(self, *)'] + FRAG_MOD, allocates=True, returns='ref:Fragments'))
 
 # ---------------------------------------------------------------- Packet.__init__ (driver part), unpack, pack
+define('flag_of(dn)', "strfmt('_is_descriptor_%s_enabled', dn)")
+define('hidden_of(dn)', "strfmt('_described_%s', dn)")
+# python's descriptor protocol for a described field (Auto.__set__, verified in c_descriptor, with the
+# names fixed by Field._describe_yourself / Auto._compile): explicit value, computed value disabled
+add(Contract(
+    'role:DESC.__set__', role=True,
+    params={'instance': 'ref:Packet', 'dn': 'str', 'val': 'dyn'},
+    ensures=["hasslot(instance, flag_of(dn)) and same(slot(instance, flag_of(dn)), False)",
+             "hasslot(instance, hidden_of(dn)) and same(slot(instance, hidden_of(dn)), val)"],
+    # (the descriptor of a described field is installed in the class by the builder: the
+    # assignment cannot fail with AttributeError - WFClass)
+    modifies=['slot(instance, flag_of(dn))', 'slot(instance, hidden_of(dn))']))
+
+define('DN(self, i)', "ft_field(class_of(self), i).descriptor_name")
+# WFClass (assumed): no table entry owns the descriptor flag slot / hidden slot of another entry
+define('DescSlotsDisjoint(self)',
+       "forall(lambda i, j: implies(0 <= i and i < FT(self) and 0 <= j and j < FT(self) and i != j and isstr(DN(self, i)),"
+       "   not owns(ft_field(class_of(self), j), flag_of(DN(self, i)))"
+       "   and not owns(ft_field(class_of(self), j), hidden_of(DN(self, i)))"
+       "   and not (isstr(DN(self, j)) and (flag_of(DN(self, j)) == flag_of(DN(self, i))"
+       "            or hidden_of(DN(self, j)) == hidden_of(DN(self, i))"
+       "            or flag_of(DN(self, j)) == hidden_of(DN(self, i))"
+       "            or hidden_of(DN(self, j)) == flag_of(DN(self, i))))),"
+       "   pat=lambda i, j: (ft_field(class_of(self), i), ft_field(class_of(self), j)))"
+       " and forall(0, FT(self), lambda i: allocated(ft_field(class_of(self), i)))")
+define('ctor_keyword_applied(self, defaults, i)',
+       "implies(isstr(DN(self, i)) and (DN(self, i) in defaults),"
+       "        hasslot(self, flag_of(DN(self, i))) and same(slot(self, flag_of(DN(self, i))), False)"
+       "        and same(slot(self, hidden_of(DN(self, i))), defaults[DN(self, i)]))")
+
 add(Contract(
     'packet:Packet.__init__',
     params={'self': 'ref:Packet', '_initialize_fields': 'bool', 'defaults': 'conf'},
     varkw='defaults', defaults={'_initialize_fields': 'True'},
-    requires=["not _initialize_fields"],      # the initialising branch is verified under C19 (Packet.__init__#init)
-    ensures=[], modifies=[], allocates=False))
+    free_requires=["DescSlotsDisjoint(self)"],      # WFClass: a property of the class, assumed (not checked at call sites)
+    ensures=[
+        # constructing with the keyword of a described field == assigning it (whatever the value, 0 included)
+        "implies(_initialize_fields, forall(0, FT(self), lambda i: ctor_keyword_applied(self, defaults, i)))",
+        # without initialisation nothing is set
+        "implies(not _initialize_fields, unchanged_slots(self))",
+    ],
+    raises={'OtherException*': ["_initialize_fields"]},
+    loops={0: LoopSpec(["0 <= it", "forall(0, it, lambda j: ctor_keyword_applied(self, defaults, j))"])},
+    modifies=['slot(self, *)'], allocates=True))
+Packet_init = CONTRACTS['packet:Packet.__init__']
+Packet_init.descriptor_setattr = True
 
 add(Contract(
     'packet:Packet.unpack',
